@@ -37,20 +37,20 @@ INV_P = ['NcNoLeak', 'NcDepsExact', 'NcAligned', 'NcUpperAll', 'NcScoredOnce', '
 
 def base_cfg(nr, nc, *, gens='NoGens', perml=0, kmax=3, methods='MOne', mode='value', valmax=0, candmax=0,
              masks='MaskNone', bys='BySubj', thin_s=1, thin_g=1, xforms='XfNone', byfilter='AnyBy', variants='Var1',
-             cvcat='NoCat', thin_r=1):
+             cvcat='NoCat', thin_r=1, maxcalls=1):
     return '\n'.join([
         'CONSTANTS', f'  NR = {nr}', f'  NC = {nc}', '  MaxObj = 1', '  MaxRows = 9', '  MaxPats = 9', '  Depth = 0',
         '  NanPairs <- NanPairsNone', '  ArgLevel = 2', '  EmitMod = 1', '  Ops <- NoOps', f'  Gens <- {gens}',
         f'  PermLevel = {perml}', f'  KMax = {kmax}', f'  Methods <- {methods}', f'  Mode = "{mode}"',
         f'  ValMax = {valmax}', f'  CandMax = {candmax}', f'  Masks <- {masks}', f'  GroupBys <- {bys}',
         f'  ThinS = {thin_s}', f'  ThinG = {thin_g}', f'  ThinR = {thin_r}', f'  Xforms <- {xforms}', f'  ByFilter <- {byfilter}',
-        f'  SrcVariants <- {variants}', f'  CvCat <- {cvcat}']) + '\n'
+        f'  SrcVariants <- {variants}', f'  CvCat <- {cvcat}', f'  MaxCalls = {maxcalls}']) + '\n'
 
 
 def vcfg(nr, nc, **kw):
     init = 'VInitCv' if kw.get('cvcat', 'NoCat') != 'NoCat' else 'VInit'
     return base_cfg(nr, nc, mode='value', **kw) + f'INIT {init}\nNEXT NcNext\n' + \
-        ''.join(f'INVARIANT {i}\n' for i in INV_V) + 'CHECK_DEADLOCK FALSE\n'
+        ''.join(f'INVARIANT {i}\n' for i in INV_V) + 'PROPERTY DataFrame\nCHECK_DEADLOCK FALSE\n'
 
 
 def pcfg(nr, nc, **kw):
@@ -59,7 +59,7 @@ def pcfg(nr, nc, **kw):
 
 
 def tcfg(nr, nc):
-    return base_cfg(nr, nc, mode='trace') + 'SPECIFICATION TSpec\n' + \
+    return base_cfg(nr, nc, mode='trace', methods='MAll', maxcalls=9) + 'SPECIFICATION TSpec\n' + \
         ''.join(f'INVARIANT {i}\n' for i in INV_P[:-1]) + 'CHECK_DEADLOCK FALSE\n'
 
 
@@ -81,7 +81,8 @@ def run_value(ctx, name, nr, nc, nrand, **kw):
         raise MachineryError(f'{name}: TLC emitted nothing')
     groups = {}
     for o in r.iter_emitted():
-        key = (json.dumps(o['case']) if o.get('api') == 'cv' else '', o['by'], o['meth'], json.dumps(o['val']))
+        key = (json.dumps(o['case']) if o.get('api') == 'cv' else '', o['by'], o['meth'], json.dumps(o['val']),
+               json.dumps(o.get('prev', [])))
         gr = groups.setdefault(key, {'rec': None, 'cands': [], 'xfs': []})
         if o['t'] == 'stack':
             gr['rec'] = o
@@ -190,9 +191,15 @@ def _trace_job(args):
 
 
 def run_traces(ctx, ntr):
-    const = {'NR': 4, 'NC': 4}
-    kinds = ['boot-tok', 'cv-tok', 'boot-val']
-    jobs = [(ctx.seed * 100003 + i, const, kinds[i % 3]) for i in range(ntr)]
+    # boot sessions on 4 x 4 objects (exact rho-a arithmetic stays inside 32 bits), cv sessions on 3 x 6 objects so that
+    # the library's own generators split the conditions as well (k_pattern = 2)
+    for const, kinds, n, name in (({'NR': 4, 'NC': 4}, ['boot-tok', 'boot-val'], (2 * ntr) // 3, 'nc_traces_boot'),
+                                  ({'NR': 3, 'NC': 6}, ['cv-tok'], ntr // 3, 'nc_traces_cv')):
+        _run_traces(ctx, const, kinds, n, name)
+
+
+def _run_traces(ctx, const, kinds, ntr, name):
+    jobs = [(ctx.seed * 100003 + i, const, kinds[i % len(kinds)]) for i in range(ntr)]
     with mp.Pool(NPROC) as pool:
         recs = pool.map(_trace_job, jobs, chunksize=8)
     traces, meta = [], []
@@ -211,34 +218,37 @@ def run_traces(ctx, ntr):
         raise MachineryError(f'only {len(traces)} of {len(recs)} recorded calls could be assembled')
     # binding self-test: corrupt recorded values of accepted-looking traces; they must be rejected
     corrupt = []
-    for what in ('ret', 'deps', 'cand'):
+    for what in ('ret', 'deps', 'cand', 'fp'):
         for t in traces:
             evs = json.loads(json.dumps(t['ev']))
             if what == 'ret':
                 k = next(i for i, e in enumerate(evs) if e['op'] == 'ret')
                 evs[k]['lo8'] += 5000
+            elif what == 'fp':
+                k = max(i for i, e in enumerate(evs) if e['op'] == 'ret')
+                evs[k]['fp'] += 1
             elif what == 'deps':
                 if len(evs[0]['predDeps']) < 2:
                     continue
                 evs[0]['predDeps'] = evs[0]['predDeps'][1:]
             else:
                 k = next((i for i, e in enumerate(evs) if e['op'] == 'cand'), None)
-                r_ = next((e for e in evs if e['op'] == 'ret'), None)
                 if k is None:
                     continue
+                r_ = [e for e in evs[:k] if e['op'] == 'ret'][-1]      # the bounds this candidate is compared with
                 evs[k]['s8'] = r_['up8'] + 7
             corrupt.append({'hdr': t['hdr'], 'ev': evs})
             break
-    if len(corrupt) < 3:
+    if len(corrupt) < (4 if 'boot-val' in kinds else 3):
         raise MachineryError('could not build the corrupted traces of the binding self-test')
     rejected = ctx.validate('MC_Trace_NoiseCeiling', tcfg(const['NR'], const['NC']), traces + corrupt,
-                            name='nc_traces', timeout=1500)
+                            name=name, timeout=1500)
     rej = {i: d for i, d in rejected}
     for j in range(len(corrupt)):
         if len(traces) + j not in rej:
             raise MachineryError('binding self-test failed: a corrupted recorded value was accepted by Trace_NoiseCeiling')
         ctx.traces -= 0
-    ctx.extra['selftest_corrupted_traces_rejected'] = len(corrupt)
+    ctx.extra['selftest_corrupted_traces_rejected'] = ctx.extra.get('selftest_corrupted_traces_rejected', 0) + len(corrupt)
     for idx, diag in rejected:
         if idx >= len(traces):
             continue
@@ -252,11 +262,11 @@ def run_traces(ctx, ntr):
             raise MachineryError(f'recorder produced a trace the specification cannot step through: {meta[idx]} {d}')
         api = traces[idx]['hdr']['api']
         clause = {'lower-above-upper': 'c', 'candidate-beats-upper': 'a', 'upper-not-exact-rho-a': 'a',
-                  'upper-not-average-of-folds': 'a', 'upper-deps': 'a'}.get(why, 'b')
+                  'upper-not-average-of-folds': 'a', 'upper-deps': 'a', 'data-modified': 'frame'}.get(why, 'b')
         ctx.violation(f'C07/{clause}/trace/{api}/{why}', 'recorded call is not explained by the protocol of the specification',
                       {'seed': meta[idx][0], 'kind': meta[idx][1], 'hdr': traces[idx]['hdr'], 'diag': d,
                        'event': traces[idx]['ev'][d.get('l', 1) - 1] if d.get('l') else None})
-    ctx.extra['recorded_calls_validated'] = len(traces)
+    ctx.extra['recorded_sessions_validated'] = ctx.extra.get('recorded_sessions_validated', 0) + len(traces)
     return len(traces)
 
 
@@ -283,12 +293,19 @@ def run(ctx):
                   thin_s=3, thin_g=7)
         run_value(ctx, 'v_cv_3x4', 3, 4, nrand, methods='MAll', valmax=1, candmax=2, thin_r=2, thin_s=23, cvcat='CvCat34',
                   gens='GensAll', perml=2)
+        run_value(ctx, 'v_sess_2x3', 2, 3, 20, methods='MAll', valmax=3, candmax=1, thin_s=7, maxcalls=3)
+        run_value(ctx, 'v_sess_cv', 3, 4, 20, methods='MAll', valmax=1, candmax=1, thin_r=5, thin_s=7, cvcat='CvCat34',
+                  gens='GensAll', perml=2, maxcalls=2)
     else:
         run_value(ctx, 'v_2x3', 2, 3, nrand, methods='MAll', valmax=3, candmax=4, thin_s=7, xforms='XfFew')
         run_value(ctx, 'v_3x3', 3, 3, nrand, methods='MAll', valmax=2, candmax=3, bys='ByBoth', thin_s=11, thin_g=47)
         run_value(ctx, 'v_mask_a', 2, 4, nrand, methods='MAll', valmax=2, candmax=2, masks='Mask4a', thin_s=11)
         run_value(ctx, 'v_cv_3x4', 3, 4, nrand, methods='MAll', valmax=1, candmax=1, thin_r=5, thin_s=7, cvcat='CvCat34',
                   gens='GensAll', perml=2)
+        # sessions: every ordered pair of methods, one after the other, on ONE data object
+        run_value(ctx, 'v_sess_2x3', 2, 3, 20, methods='MAll', valmax=2, candmax=1, thin_s=11, maxcalls=2)
+        run_value(ctx, 'v_sess_cv', 3, 4, 20, methods='MAll', valmax=1, candmax=1, thin_r=5, thin_s=31, cvcat='CvCat34',
+                  gens='GensAll', perml=2, maxcalls=2)
     ctx.exhaustive = thorough
     if thorough:
         run_proto(ctx, 'p_3x4', 3, 4, gens='GensAll', variants='Var13', kmax=3)
@@ -297,4 +314,6 @@ def run(ctx):
     else:
         run_proto(ctx, 'p_3x3', 3, 3, gens='GensRdmNested', variants='Var13', kmax=3)
         run_proto(ctx, 'p_3x4_random', 3, 4, gens='GensRandom', variants='Var13', kmax=3, byfilter='ByTwo')
+        # the library's own nested generator with the conditions split (k_pattern = 2 needs 6 conditions)
+        run_proto(ctx, 'p_3x6_kfold', 3, 6, gens='GensNested', variants='Var1', kmax=2, byfilter='ByTwo')
     run_traces(ctx, 1500 if thorough else 240)
